@@ -190,7 +190,11 @@ class DModel:
         if any(f <= 0 for f in fs) or reducer not in ("sum", "mean"):
             raise ModelInvalid("bad factor / reducer")
         a = self.arr
-        out = a.astype(object) if a.dtype.kind in "iu" else a.astype(np.complex128 if a.dtype.kind == "c" else np.float64)
+        if a.dtype.kind in "iu":
+            # exact integer arithmetic: int64 when it cannot overflow (|v| < 2**32, block volume far below 2**31), else Python ints
+            out = a.astype(np.int64) if (a.dtype.itemsize <= 4 and a.size > 4096) else a.astype(object)
+        else:
+            out = a.astype(np.complex128 if a.dtype.kind == "c" else np.float64)
         o, s = list(self.origin), list(self.sampling)
         vol = 1
         for axis, f in zip(ax, fs):
